@@ -28,6 +28,7 @@ EXPLANATION = (
     " (R10) option interplay: the greedy shortcut is not taken when solution_weights_superset is given, flow-safe paths switch the other safety options off instead of raising, a trusted set built from a percentile contains no zero-flow edge and its population excludes ignored elements, flow-safe paths only when nothing is ignored (C10.R8). "
     "NOT decided: that fixing safe sequences / pruning edges preserves the optimum (C06), equality of optima."
     ' (R10, round 4) subpath constraints are used as safe sequences only under full coverage in both metrics (the guard is evaluated on the six combinations of full / partial coverage); cache ownership and purity of the reachability substrate (C17.R1 / R2).'
+    ' (R10, hunt 4) under full length coverage a constraint with a zero-length edge is not a safe sequence and its zero-length edges are not trusted; noise weights of the subgraph-scanning windows are filtered.'
 )
 DECIDED = ["flag <-> constraint pairing and consumer mapping", "flag producers run before consumers", "bound route == constraint route",
            "safety rows conform to the formulation table", "adoption guards of greedy / guessed weights", "option-key agreement",
